@@ -86,6 +86,10 @@ def cases(ctx):
             x, y, z = (2 * c_[0].x - o[0].x + 600, 2 * c_[0].y - o[0].y + 400, 2 * c_[0].z - o[0].z)
             oxt = pdbio.atom_line("ATOM", 9990, "OXT", " ", resn, "A", upto, " ", x, y, z, elem="O")
             out.append((f"1HPX-A-ends-in-{resn}{upto}", C.join(ch + [oxt, C.TER]), []))
+    # conformations that disagree on which group of a covalently coupled system titrates (methotrexate N1 / N8 next to
+    # ASP A 27 of 4DFR, whose carboxylate gets a second location 0.3 A away)
+    for sh in ([(300, 0, 0)] if not ctx.thorough() else [(300, 0, 0), (-300, 0, 0), (0, 300, 0), (0, 0, 300), (200, 200, -100)]):
+        out.append(("4DFR+ASP27-alt%+d%+d%+d" % sh, C.join(C.add_altloc(C.atom_lines("4DFR"), ("A", 27, " "), delta=sh)), []))
     # point mutants between conformations: a reported group that exists in some conformations only
     from . import c08
     multi = dict(c08.constructed(ctx))
